@@ -799,3 +799,44 @@ def rebuild_rule(ctx, rep, cls, field, rule, what):
                 seen.add((key, s_.node))
                 rep.ob(rule, key, ok, "the list is walked and the result stored back without one continuous hold of the lock: an entry appended by another thread in between is dropped", where_of_(m, s_), None)
     return n
+
+
+class RetryRoles(object):
+    """roles of the retry layer: queue / record (Queue), worker loop and completion callback (Layer), the record
+    field that holds the in-flight delegate future (the field that receives the result of delegate.submit in the
+    hand-over) and the stop flag (the record field initialised False)"""
+
+    def __init__(self, ctx):
+        prog = ctx.prog
+        self.cls = rex = prog.cls("RetryExecutor")
+        self.queue = Queue(ctx, rex)
+        self.layer = Layer(ctx, rex)
+        if self.layer.loop is None or self.layer.callback is None:
+            raise AnalysisError("RetryExecutor: worker thread / completion callback not identified")
+        self.deleg = delegate_field(ctx, rex)
+        flags = false_init_fields(ctx, self.queue.rec)
+        if len(flags) != 1:
+            raise AnalysisError("%s: expected exactly one flag field (initialised False), found %s" % (self.queue.rec.name, flags))
+        self.stop = flags[0]
+        REC = "C:" + self.queue.rec.key
+        ps, it = ctx.paths(self.layer.loop, None, depth=6, inline=std_inline)
+        df = set()
+        for p in ps:
+            for e in p.calls():
+                r = q.recv(e)
+                if q.call_name(e) == "submit" and isinstance(r, tuple) and r[0] == "attr" and r[2] == self.deleg:
+                    res = q.result_of(e)
+                    for k, v in p.heap.items():
+                        if k[0] == "attr" and v == res and it.type_of(k[1], p) == REC:
+                            df.add(k[2])
+        if len(df) != 1:
+            raise AnalysisError("retry: the job field holding the delegate's future is not unique (%s)" % sorted(df))
+        self.inflight = df.pop()
+        self.future = self.queue.roles["future"]
+        self.fn = self.queue.roles["fn"]
+
+
+def retry_roles(ctx):
+    if getattr(ctx, "_retry_roles", None) is None:
+        ctx._retry_roles = RetryRoles(ctx)
+    return ctx._retry_roles
